@@ -1325,6 +1325,9 @@ class FortranFile:
                     break
             if line_no in pp_defines:
                 do_skip = True
+            # Conditional directives are not code: `&&` in them is not a continuation
+            if self.preproc and FRegex.PP_REGEX.match(line):
+                do_skip = True
             if do_skip:
                 continue
             # Get full line, seek forward for code lines
